@@ -102,8 +102,15 @@ class Ctx:
         if sample is not None:
             k = cls if cls is not None else '_'
             lst = self.samples.setdefault(k, [])
+            entry = {'nontrivial': bool(nontrivial), **sample} if isinstance(sample, dict) else sample
             if len(lst) < 2 and len(self.samples) <= 40:
-                lst.append(sample)
+                lst.append(entry)
+            elif nontrivial and isinstance(entry, dict):
+                # prefer showing non-trivial cases (Hypothesis starts from the simplest inputs)
+                for i, old in enumerate(lst):
+                    if isinstance(old, dict) and not old.get('nontrivial', True):
+                        lst[i] = entry
+                        break
 
     def count(self, n=1, cls=None):
         self.evaluations += n
